@@ -23,11 +23,12 @@ def run(ctx, broken):
         entries.append("%s 706c6f6e6b || %s" % ("pxv" if i < 3 or ctx.tier != "quick" else "px", src))
     lines += r.emit("emitv", entries, ctx.seed + 1, 0)
     lines += compensated_public_inputs(ctx, lines, 3)
+    lines += verifier_header_variants(lines, 2)
     r.run(lines)
     st = r.report()
     st["rule"] = ("one circuit compiled under 6 labels (one byte changed, case, shorter, trailing NUL, empty) with every proof "
                   "shown to every other label's verifier; %d near-miss circuits (one selector, one wire, one gate more/fewer, "
                   "public-input row moved, extra public input, extra ZERO-valued public input) cross-verified with the proof's and with the other verifier's public inputs; per proof every public-input position set to "
                   "0/1/-v/v+1/random, neighbour swaps, all truncations, two extensions, rotation; V3 and V2 proofs against "
-                  "V1/V2/V3 verifiers. Expect error, never acceptance, never a panic; decision == Lean model verifier." % len(cs))
+                  "V1/V2/V3 verifiers; the verifier's serialized header declaring another size / constraint count (+1, doubled, +2^16, +2^32, +2^33, +2^63). Expect error, never acceptance, never a panic; decision == Lean model verifier." % len(cs))
     return st
